@@ -73,9 +73,8 @@ _NOISE = [0]
 
 def make_event(text):
     from mathy_core.parser import ExpressionParser
-    _NOISE[0] += 1
-    if _NOISE[0] % 200 == 1:
-        common.process_noise(_NOISE[0] // 200)
+    if common.pick(text, 200) == 0:
+        common.process_noise(common.pick(text, 997))
     import signal
     ev = {"buf": [ord(c) for c in text]}
 
@@ -148,7 +147,7 @@ def tlc_sentences(ctx, res, maxlen):
     if not r.ok():
         raise tlc.TLCError("Grammar specification violates its own lemma %s\n%s" % (r.violated, r.out[-2000:]))
     sents = [[SYMS[int(i) - 1] for i in m.group(1).replace(" ", "").split(",")] for m in re.finditer(r'^<<"S", <<([\d, ]+)>>>>', r.out, re.M)]
-    return sents
+    return sorted(sents)          # (16 TLC workers print in a different order every run; the samples drawn from the list must not)
 
 
 OPERAND_VARIANTS = [{"2": "0", "3": "1"}, {"2": "0.5", "3": "12"}, {"2": "7", "3": "2.25", "x": "z", "y": "x"},
@@ -290,7 +289,7 @@ def run_family(ctx, cases, prop, clauses_of_interest):
     else:
         texts = [c["text"] for c in cases]
         res.rule = "replay"
-    from multiprocessing import Pool
+    from .common import Pool
     import sys
     sys.setrecursionlimit(10000)
     with Pool(16) as pool:
